@@ -488,7 +488,7 @@ fn fuzz_entry(op: &str, cmd: &Value) -> Option<OpResult> {
                 .map_err(|e| format!("harness: {e}"))?;
             let r = capi::account::whoami::v3::Response::try_from_http_response(resp);
             Ok(json!({"kind": match r { Ok(_) => "ok".to_owned(), Err(e) => {
-                let t = e.to_string(); t[..t.len().min(60)].to_owned() } }}))
+                e.to_string().chars().take(60).collect::<String>() } }}))
         })(),
         "content_disposition" => (|| {
             use ruma_common::http_headers::ContentDisposition;
